@@ -167,7 +167,8 @@ def run_property(prop, tier, seed, prop_files, coq_targets, profile, monitor, n_
                 harness_ok = False
                 gout = x_out
             elif x_bad:
-                res.violation("stress", {"property": prop, "what": "monitor false on a concurrent run of the real code",
+                res.violation("stress", {"property": prop, "what": (x_bad[0].get("what") if isinstance(x_bad[0], dict) and x_bad[0].get("what")
+                                                                     else "monitor false on a concurrent run of the real code"),
                                          "observed": x_bad[:3], "seed": seed, "tier": tier,
                                          "replay": (x_bad[0].get("replay_note") if isinstance(x_bad[0], dict) and x_bad[0].get("replay_note")
                                                     else "go test -run TestVerifC05Race (harness/c05_race_test.go), real scheduler")})
